@@ -10,7 +10,7 @@ ROWID_F = ROWID  # the row id may come back as float after NA filling; alpha use
 KEY_PALETTES = [gamma.FLOAT_INF, gamma.FLOAT_BIG, gamma.FLOAT_HUGE, gamma.FLOAT_HASH, gamma.INT_SMALL, gamma.INT_BIG, gamma.INT_HASH, gamma.UINT8,
                 gamma.STR_SHORT, gamma.STR_LONG, gamma.STR_MIXED, gamma.STR_FIXED, gamma.STR_ASTRAL,
                 gamma.DATE, gamma.DATETIME, gamma.TIMEDELTA, gamma.BOOL, gamma.BOOL_OBJ, gamma.BYTES,
-                gamma.OBJ_INT]
+                gamma.OBJ_INT, gamma.DATETIME_NS_FINE]
 
 
 def mc_cfg(consts):
